@@ -12,7 +12,8 @@ from ..core import Ctx, Outcome, Violation
 from ..terms import clear_typelib_caches
 
 _N = [0]
-FORMS = ["function", "method", "instance", "class", "closure", "method_after_unbound", "slotted_instance_after_dead"]
+FORMS = ["function", "method", "instance", "class", "closure", "method_after_unbound", "slotted_instance_after_dead", "class_on_wrapped_base"]
+CLASS_FORMS = ("class", "class_new", "class_on_wrapped_base")
 
 
 def tokens(npos_max, names):
@@ -91,6 +92,16 @@ def build_callable(sig, form, toks):
                f"decoy = C0()\nf = None\n")
     elif form == "class":
         src = (f"class f:\n    'doc of class'\n{body_ann}    def __init__(self, {params}):\n        self.got = {ret}\n")
+    elif form == "class_on_wrapped_base":
+        # a class with its own annotated constructor, derived from a class (annotated with other Enum classes) that was wrapped
+        # before: wrapping the derived class converts by the derived constructor's parameters
+        decoys = {f"D{k[1:]}": enum.Enum(f"X{k[1:]}", {f"m{j}": t for j, t in enumerate(toks)}, module=modname) for k in enums}
+        mod.__dict__.update(decoys)
+        dparams = params
+        for k in sorted(enums, key=len, reverse=True):
+            dparams = dparams.replace(f": {k}", f": D{k[1:]}")
+        src = (f"class C0:\n    def __init__(self, {dparams}):\n        self.got = {ret}\n"
+               f"class f(C0):\n    'doc of class'\n    def __init__(self, {params}):\n        self.got = {ret}\ndecoy = C0\n")
     elif form == "class_new":
         # a pass-through __new__: inspect.signature(cls) is then (*args, **kwargs), the annotated __init__ still decides
         src = (f"class f:\n    'doc of class'\n{body_ann}    def __new__(cls, *args, **kwargs):\n        return super().__new__(cls)\n"
@@ -119,6 +130,12 @@ def _get_built(sig, form, entry):
             try:
                 d = binding.bind(mod.decoy) if entry == "bind" else binding.wrap(mod.decoy)
                 d(mod.decoy_self, *[f"a{j}" for j in range(1, 9)])
+            except Exception:
+                pass
+        if form == "class_on_wrapped_base":
+            try:
+                binding.wrap(mod.decoy)
+                mod.decoy(*[f"a{j}" for j in range(1, 9)])
             except Exception:
                 pass
         if form == "slotted_instance_after_dead":
@@ -151,7 +168,7 @@ def _get_built(sig, form, entry):
         except Exception as e:
             g, err = None, e
         # the raw callable for the audit: for classes wrap() patches __init__ in place, so build a twin
-        raw = build_callable(sig, form, ALLTOKS)[0] if form in ("class", "class_new") else f
+        raw = build_callable(sig, form, ALLTOKS)[0] if form in CLASS_FORMS else f
         _BUILT[key] = (f, raw, g, err, meta, src)
     return _BUILT[key]
 
@@ -177,7 +194,7 @@ def observe(sig, call, form, entry):
         if builderr is not None:
             raise builderr
         got = g(*args, **kwargs)
-        if form in ("class", "class_new"):
+        if form in CLASS_FORMS:
             got = got.got
     except TypeError:
         ev["res"] = "TypeError"
